@@ -171,7 +171,7 @@ def run(ctx):
     if ctx.quick():
         args = ["-rand", "60", "-cancel-every", "12"]
     else:
-        args = ["-rand", "300", "-cancel-every", "1"]
+        args = ["-rand", "600", "-cancel-every", "1"]
     lines = ctx.jsonl([hx, "-seed", str(ctx.seed)] + args, timeout=840)
     dist, tags = {}, {}
     terms, refs = [], []
@@ -208,7 +208,16 @@ def run(ctx):
                 refs.append(l)
     ctx.log("harness: %d scenarios, %d cancellation runs, %d Go-oracle violations; %d cases for Coq" % (
         sum(1 for l in lines if l["kind"] == "scenario"), ncancel, nviol, len(terms)))
-    bad_model, bad_spec = par_mismatches(ctx, "c06_cases", HEADER, terms, ["model_ok", "spec_ok"], shard=1000 if ctx.quick() else 500)
+    # many scenarios differ only in their source text (argument shapes): evaluate each distinct term once
+    uniq, first = [], {}
+    for i, t in enumerate(terms):
+        if t not in first:
+            first[t] = len(uniq)
+            uniq.append(t)
+    ub_model, ub_spec = par_mismatches(ctx, "c06_cases", HEADER, uniq, ["model_ok", "spec_ok"], shard=1000 if ctx.quick() else 500)
+    ubm, ubs = set(ub_model), set(ub_spec)
+    bad_model = [i for i, t in enumerate(terms) if first[t] in ubm]
+    bad_spec = [i for i, t in enumerate(terms) if first[t] in ubs]
     for i in bad_spec:
         l = refs[i]
         ctx.finding(l["vkey"], "%s: the observation violates the specification (Spec.spec_after)" % l["family"],
